@@ -1074,6 +1074,15 @@ void Handler::readArgumentFile( const string& pathFilename, bool reportMissing)
       return;
    } // end if
 
+   // a file may contain the argument to read another argument file: limit the
+   // nesting, a file that (indirectly) names itself would never end
+   const common::ResetAtExit< int>  reset_nesting( mArgFileNesting,
+      mArgFileNesting);
+
+   if (++mArgFileNesting > MaxArgFileNesting)
+      throw runtime_error( "argument files nested too deep, reading file '"
+         + pathFilename + "'");
+
    const common::ScopedFlag< uint8_t>  sf( mReadMode, ReadMode::file);
 
    // now read the lines with arguments and process them
